@@ -994,7 +994,10 @@ enum cc_stat cc_array_iter_remove(CC_ArrayIter *iter, void **out)
  */
 enum cc_stat cc_array_iter_add(CC_ArrayIter *iter, void *element)
 {
-    return cc_array_add_at(iter->ar, element, iter->index++);
+    enum cc_stat status = cc_array_add_at(iter->ar, element, iter->index);
+    if (status == CC_OK)
+        iter->index++;
+    return status;
 }
 
 /**
